@@ -1000,7 +1000,11 @@ class Agent(dbus.service.Object):
             if (cmsg_level, cmsg_type) == (socket.IPPROTO_IP, socket.IP_TOS):
                 self.__logger.info('With TOS field %02x', cmsg_data[0])
         self._plain_sock[conv.key] = sock
-        self._recv_datagram(sock, data, conv, ip_tos)
+        try:
+            self._recv_datagram(sock, data, conv, ip_tos)
+        except Exception as err:
+            # One undecodable datagram must not end the listening
+            self.__logger.error('Failed to handle datagram from %s: %s', conv, err)
         return True
 
     def _starttls(self, sock, conv: Conversation, server_side: bool):
